@@ -37,7 +37,7 @@ SPECTRUM_REASONS = ('NO_SPECTRUM', 'NOT_ENOUGH_RESERVED_SPECTRUM')
 
 
 def plan(tier, seed):
-    n = 40 if tier == 'quick' else 700
+    n = 40 if tier == 'quick' else 2000
     return [{'idx': i, 'kind': ['plain', 'sat', 'plain', 'sat', 'p2p'][i % 5]} for i in range(n)]
 
 
